@@ -219,6 +219,10 @@ def d5(ctx):
         # (a `return 0` for Freelist::None, when that test sits in this function instead of in its caller, is not a return of the loop)
         none_rets = [r for r in rets if r["value"] == const(0) and any(f[0] == "discr" and f[1] == field(SELF, "freelist") and f[2] == ("eq", 0) for f in ctx.facts_of(ev, r))]
         rets = [r for r in rets if r not in none_rets]
+        # (likewise an Err(ReadOnly) under `self.ro`, when the helper repeats the read-only test of its caller)
+        rets = [r for r in rets if not (tag(r["value"]) == "variant" and r["value"][2] == "Err" and r_is(r["value"], "ReadOnly") and ("bool", field(SELF, "ro"), True) in ctx.facts_of(ev, r))]
+        if len(rets) == 1 and tag(rets[0]["value"]) == "variant" and rets[0]["value"][2] == "Ok" and len(rets[0]["value"][3]) == 1:
+            pass    # the accumulator wrapped in Ok(..) when the helper returns a Result
         ok_r = len(rets) == 1
         if ok_r:
             fs = ctx.facts_of(ev, rets[0])
